@@ -181,6 +181,44 @@ def gen_base_mesh(rng, max_points=36, **kw):
     return best
 
 
+def gen_structured_input(rng):
+    kind = rng.choice(["S", "S", "R", "I"])
+    d = rng.choice([1, 2, 2, 3])
+    ext = [rng.randint(1, 2) for _ in range(d)] + [0] * (3 - d)
+    if rng.random() < 0.3:
+        rng.shuffle(ext)
+    npts = (ext[0] + 1) * (ext[1] + 1) * (ext[2] + 1)
+    ncells = max(ext[0], 1) * max(ext[1], 1) * max(ext[2], 1)
+    spec = {"k": kind, "ext": ext}
+    if kind == "I":
+        spec["origin"] = [rng.choice([0.0, 1.0, -2.5]) for _ in range(3)]
+        spec["spacing"] = [rng.choice([0.5, 1.0, 2.0]) for _ in range(3)]
+    else:
+        ords = [[rng.choice([0.0, 1.0]) + 1.0 * i + (0.25 * rng.random() if i else 0.0) for i in range(e + 1)] for e in ext]
+        if kind == "R":
+            spec["ords"] = ords
+        else:
+            spec["points"] = [[ords[0][i] + 0.1 * j, ords[1][j] + 0.05 * k, ords[2][k]]
+                              for k in range(ext[2] + 1) for j in range(ext[1] + 1) for i in range(ext[0] + 1)]
+    spec["pf"] = [100.0 + 1.5 * i for i in range(npts)]
+    spec["cf"] = [7.0 + 2.0 * i for i in range(ncells)]
+    return {"structured": spec, "role": "S-" + kind + str(d)}
+
+
+def build_structured(spec):
+    from fieldcompare.mesh import MeshFields, RectilinearMesh, StructuredMesh, ImageMesh
+    k, ext = spec["k"], tuple(spec["ext"])
+    if k == "R":
+        mesh = RectilinearMesh(ext, tuple(np.array(o, dtype=np.float64) for o in spec["ords"]))
+    elif k == "S":
+        mesh = StructuredMesh(ext, np.array(spec["points"], dtype=np.float64))
+    else:
+        mesh = ImageMesh(ext, tuple(spec["origin"]), tuple(spec["spacing"]))
+    cts = list(mesh.cell_types)
+    return MeshFields(mesh, point_data={"sp": np.array(spec["pf"], dtype=np.float64)},
+                      cell_data={"sc": [np.array(spec["cf"], dtype=np.float64) for _ in cts]})
+
+
 def gen_history_case(rng):
     """logical inputs + a list of abstract operations; operands are chosen at run time from the pool (index modulo,
     then the next pool object that fits the operation)"""
@@ -212,6 +250,9 @@ def gen_history_case(rng):
             break
     gen_fields_simple(rng, p)
     inputs.append({"lm": p, "role": "P-" + pt["style"]})
+    # S: a structured grid (curvilinear / rectilinear / image mesh object of the public API) with a point and a cell field
+    if rng.random() < 0.5:
+        inputs.append(gen_structured_input(rng))
     n = rng.randint(3, 8)
     ops = []
     for _ in range(n):
@@ -291,7 +332,7 @@ def exec_history(case, workroot, tag):
     pool = []          # (object, kind)
     with _quiet():
         for inp in case["inputs"]:
-            pool.append((meshgen.to_fc(inp["lm"]), "mesh"))
+            pool.append((build_structured(inp["structured"]) if "structured" in inp else meshgen.to_fc(inp["lm"]), "mesh"))
         in_files = []
         if case.get("read_back"):
             # input *files*: written once, read back as additional shared objects
